@@ -227,7 +227,8 @@ def to_simplicial_complex(data, create_using=None):
         H._net_attr = deepcopy(data._net_attr)
         return H
 
-    elif isinstance(data, Hypergraph):
+    elif isinstance(data, (Hypergraph, DiHypergraph)):
+        # a directed source contributes tail | head of each edge (DiEdgeView.members)
         H = empty_simplicial_complex(create_using)
         H.add_nodes_from((n, attr) for n, attr in data.nodes.items())
         ee = data.edges
